@@ -14,7 +14,7 @@ import (
 func init() {
 	Registry["C07"] = C07
 	Metas["C07"] = Meta{
-		Explanation: "Decides the traversal skeleton C07 relies on, on every path of Map.Range / MapOf.Range: (Q1) all buckets walked derive from one atomic load of the table pointer made before the loops; per root bucket the entries are appended to the intermediate slice only while that bucket's lock is held, the lock is released only at the end of the chain, and the visitor is called only with the lock released; the visitor's arguments come from the collected slice; the slice carried to the next bucket is a zero-length reslice (no entry is visited twice); a false visitor result leads to return with no further visitor call; (Q2) key and value pointers collected together come from the same slot of the same bucket; (Q3) the cache-level Range ignores a nil visitor before touching the map, calls the visitor only on the not-expired outcome of an expiry test of the visited entry against a clock read inside this Range call, passes that entry's key and value, returns the visitor's verdict, and Items stores exactly the visited pairs and never stops early; (Q4) scan loops cover all slots and whole chains (C11.L2) and a concurrent resize leaves the walked generation intact (C03/C04.P6). NOT decided: at-most-once / at-least-once over real interleavings (needs the protocol premises of C03/C04).",
+		Explanation: "Decides the traversal skeleton C07 relies on, on every path of Map.Range / MapOf.Range: (Q1) all buckets walked derive from one atomic load of the table pointer made before the loops; per root bucket the entries are appended to the intermediate slice only while that bucket's lock is held, the lock is released only at the end of the chain, and the visitor is called only with the lock released; the visitor's arguments come from the collected slice; the slice carried to the next bucket is a zero-length reslice (no entry is visited twice); a false visitor result leads to return with no further visitor call; (Q2) key and value pointers collected together are slot contents read under the lock from the same slot of the same bucket (a collected slot address, to be re-read after the unlock, is rejected); (Q3) the cache-level Range ignores a nil visitor before touching the map, calls the visitor only on the not-expired outcome of an expiry test of the visited entry against a clock read inside this Range call, passes that entry's key and value, returns the visitor's verdict, and Items stores exactly the visited pairs and never stops early; (Q4) scan loops cover all slots and whole chains (C11.L2) and a concurrent resize leaves the walked generation intact (C03/C04.P6). NOT decided: at-most-once / at-least-once over real interleavings (needs the protocol premises of C03/C04).",
 		Rule:        "one obligation per (rule, function, site); non-trivial = decided from lockset facts, dominance, loop-carried value shape or role evaluation",
 		Assumptions: []string{"C13 lock pairing; C03/C04 P3/P5/P6"},
 	}
